@@ -362,7 +362,8 @@ func (g *c11vGen) did() string {
 
 func (g *c11vGen) credID() string {
 	// ids prefixed by A or B (issuer chosen independently when verifying: foreign prefixes occur)
-	id := fmt.Sprintf("%s#%d", g.did(), g.rng.Intn(4))
+	// fragments of which one is a string prefix of another (1 / 12 / 123): the revocation store must match the id exactly
+	id := fmt.Sprintf("%s#%s", g.did(), []string{"0", "1", "12", "123", "2"}[g.rng.Intn(5)])
 	return id
 }
 
